@@ -72,6 +72,26 @@ def break_in_brackets(text, rng, pad):
     return out
 
 
+def multiline_strings(text, rng):
+    """rewrite 'a\\nb' string tokens as triple-quoted literals containing a real newline (same constant)"""
+    try:
+        toks = list(tokenize.generate_tokens(io.StringIO(text + '\n').readline))
+    except (tokenize.TokenError, IndentationError, SyntaxError):
+        return text
+    edits = []
+    for tok in toks:
+        if tok.type == tokenize.STRING and tok.start[0] == tok.end[0] == 1 and tok.string[0] in '\'"' and '\\n' in tok.string:
+            try:
+                val = ast.literal_eval(tok.string)
+            except Exception:
+                continue
+            if isinstance(val, str) and "'''" not in val and '\\' not in val and not val.endswith("'") and rng.random() < 0.7:
+                edits.append((tok.start[1], tok.end[1], "'''" + val + "'''"))
+    for a, b, new in reversed(edits):
+        text = text[:a] + new + text[b:]
+    return text
+
+
 def relayout(src, rng):
     """-> a random re-layout of src with an identical AST, or None"""
     try:
@@ -122,6 +142,8 @@ def relayout(src, rng):
         text = ln.text
         if rng.random() < 0.5 and not text.startswith('@'):
             text = break_in_brackets(text, rng, pad)
+        if rng.random() < 0.8:
+            text = multiline_strings(text, rng)
         out.append(pad + text)
     new = '\n'.join(out) + '\n'
     if same_ast(base, new) and new != base:
